@@ -32,7 +32,8 @@ class C17(Prop):
         base = self.sandbox
         os.makedirs(os.path.join(base, "d1"), exist_ok=True)
         os.makedirs(os.path.join(base, "d2", "in"), exist_ok=True)
-        return [os.path.join(base, "d1"), os.path.join(base, "d2"), os.path.join(base, "d2", "in"), "/", "."], \
+        # the last one is the working directory of the implementation run, spelled out: it must count as given
+        return [os.path.join(base, "d1"), os.path.join(base, "d2"), os.path.join(base, "d2", "in"), "/", ".", os.path.dirname(base)], \
                [os.path.join(base, "nope"), "", os.path.join(base, "d1", "x", "y")]
 
     def server_groups(self, rng):
@@ -42,7 +43,7 @@ class C17(Prop):
             g.append(("ip", rng.choice(["-i", "--ip-address"]), ip))
         for p in ["0", "1234", "65535", "65536", "+7", "abc", "", "-1"]:
             g.append(("port", rng.choice(["-p", "--port"]), p))
-        for d in good[:3] + bad[:2]:
+        for d in good[:3] + good[5:] + bad[:2]:
             g.append(("dir", rng.choice(["-d", "--directory"]), d))
             g.append(("rd", rng.choice(["-rd", "--receive-directory"]), d))
             g.append(("sd", rng.choice(["-sd", "--send-directory"]), d))
@@ -78,7 +79,7 @@ class C17(Prop):
             toks += list(gr[1:])
         if dangling:
             toks.append(dangling)
-        orc = ["I" + ip.encode().hex() for ip in VALID_IPS] + ["P" + d.encode().hex() for d in good if d]
+        orc = ["I" + ip.encode().hex() for ip in VALID_IPS] + ["P" + d.encode().hex() for d in good[:5] if d] + ["W" + good[5].encode().hex()]
         return "cfg %s %s %s" % (kind, ",".join(orc), " ".join(hx(t) for t in toks))
 
     def generate(self, tier, rng):
@@ -118,7 +119,8 @@ class C17(Prop):
         kind = t[1]
         orc = t[2].split(",") if t[2] != "-" else []
         ips = set(bytes.fromhex(x[1:]).decode() for x in orc if x[0] == "I")
-        paths = set(bytes.fromhex(x[1:]).decode() for x in orc if x[0] == "P")
+        paths = set(bytes.fromhex(x[1:]).decode() for x in orc if x[0] in "PW")
+        cwds = set(bytes.fromhex(x[1:]).decode() for x in orc if x[0] == "W")
         args = [bytes.fromhex(x).decode() if x != "-" else "" for x in t[3:]]
         if kind == "S":
             args = args[1:]
@@ -152,7 +154,8 @@ class C17(Prop):
                 elif k in ("dir", "rd", "sd"):
                     if v not in paths:
                         return "err"
-                    c[k] = hx(v)
+                    # the implementation's configuration cannot tell its working directory, spelled out, from the default
+                    c[k] = "CWD" if (v in cwds and kind == "S") else hx(v)
                 elif k == "dup":
                     n = parse_uint(v, 256)
                     if n is None or n >= 255:
